@@ -183,34 +183,82 @@ def rule_f(ctx, R):
     d = fl.deps_of(s)
     from .common import built_structs
     aggs = list(built_structs(f, R, s, "TropicalSampleResult"))
-    if len(aggs) != 1:
+    if len(aggs) < 1:
         return ctx.lost("C17-f", "TropicalSampleResult aggregate in sample (found %d)" % len(aggs), s.path)
-    bi, si, st = aggs[0]
-    rv = st["rv"]
-    for i, fld in enumerate(rv["fields"]):
-        if fld not in NUMERIC_FIELDS:
-            continue
-        op = rv["ops"][i]
-        srcs = set()
-        if op["k"] in ("copy", "move"):
-            srcs = d["close"](("n", op["place"]["l"], None))
-        flags = sorted(set(x[1] for x in srcs if x[0] == "flag"))
-        ctx.ob("C17-f", "result field `%s` does not depend on a settings flag" % fld, not flags, s.path, "flag-dependence:" + fld,
-               where=pat.where(st), detail="field %s depends on settings.%s" % (fld, flags))
-    seen_fields = [x for x in rv["fields"] if x in NUMERIC_FIELDS]
-    ctx.ob("C17-f", "all %d numeric result fields examined" % len(NUMERIC_FIELDS), len(seen_fields) == len(NUMERIC_FIELDS), s.path,
-           "numeric-fields-floor", detail="found %s" % seen_fields)
+    # one aggregate per path that builds the result (an early exit without metadata builds it twice): every one is examined
+    vs = Vals(s)
+
+    def value_node(op):
+        """The local in which the value was computed: plain copies / moves made on the way into the aggregate are looked through."""
+        if op["k"] not in ("copy", "move"):
+            return None
+        r = vs.deep_root(op)
+        if r.kind == "local":
+            l_ = r.base[1]
+        elif r.kind == "call":
+            l_ = s.blocks[r.base[1]]["term"]["dest"]["l"]
+        else:
+            return None
+        flds = [p_ for p_ in r.path if isinstance(p_, str) and not p_.startswith("as:")]
+        if flds and flds[0] in d["fields_of"].get(l_, ()):
+            return (l_, flds[0])
+        return (l_, None)
+    # when the result is built on several paths and each field is a copy of ONE value computed before the paths split, the field is
+    # the same whichever path runs: its dependences are those of that value, not of the copies made under the branch
+    shared = {}
+    if len(aggs) > 1:
+        for fld in NUMERIC_FIELDS:
+            nodes = set()
+            for _bi, _si, st_ in aggs:
+                rv_ = st_["rv"]
+                nodes.add(value_node(rv_["ops"][rv_["fields"].index(fld)]) if fld in rv_["fields"] else None)
+            if len(nodes) == 1 and None not in nodes:
+                shared[fld] = nodes.pop()
+    for bi, si, st in aggs:
+        rv = st["rv"]
+        for i, fld in enumerate(rv["fields"]):
+            if fld not in NUMERIC_FIELDS:
+                continue
+            op = rv["ops"][i]
+            srcs = set()
+            if fld in shared:
+                srcs = d["close"](("n", shared[fld][0], shared[fld][1]))
+            elif op["k"] in ("copy", "move"):
+                srcs = d["close"](("n", op["place"]["l"], None))
+            flags = sorted(set(x[1] for x in srcs if x[0] == "flag"))
+            ctx.ob("C17-f", "result field `%s` does not depend on a settings flag" % fld, not flags, s.path, "flag-dependence:" + fld,
+                   where=pat.where(st), detail="field %s depends on settings.%s" % (fld, flags))
+        seen_fields = [x for x in rv["fields"] if x in NUMERIC_FIELDS]
+        ctx.ob("C17-f", "all %d numeric result fields examined" % len(NUMERIC_FIELDS), len(seen_fields) == len(NUMERIC_FIELDS), s.path,
+               "numeric-fields-floor", detail="found %s" % seen_fields)
     # Ok / Err outcome: constructor blocks not control-dependent on a flag-tainted switch
     for body in [s, dec] + [cb for _bi, _t, cb in R.local_callees(s) if cb not in (dec,)]:
         dd = fl.deps_of(body)
         tcd = cfg.transitive_control_deps(body)
         v = Vals(body)
-        ctor_blocks = [b for b, _si, _s in pat.result_ctor_sites(body, "Ok")] + [b for b, _si, _s in pat.result_ctor_sites(body, "Err")]
-        ctor_blocks += pat.panic_blocks(body)
+        kind_of = {}
+        for b, _si, _s in pat.result_ctor_sites(body, "Ok"):
+            kind_of[b] = "Ok"
+        for b, _si, _s in pat.result_ctor_sites(body, "Err"):
+            kind_of[b] = "Err"
+        for b in pat.panic_blocks(body):
+            kind_of[b] = "panic"
+        ctor_blocks = list(kind_of)
+
+        def same_single_outcome(sb):
+            """Both arms of the switch lead to one and the same kind of outcome (e.g. Ok with / without metadata): the flag selects
+            which constructor runs, not what the outcome is."""
+            kinds = []
+            for sx in body.succs()[sb]:
+                reach = body.reachable_from(sx)
+                kinds.append(frozenset(kind_of[b_] for b_ in kind_of if b_ in reach))
+            return len(set(kinds)) == 1 and len(kinds[0]) == 1
         for cbk in ctor_blocks:
             for (sb, tgt) in tcd[cbk]:
                 t = body.blocks[sb]["term"]
                 if t["k"] != "switch" or t["discr"]["k"] not in ("copy", "move"):
+                    continue
+                if same_single_outcome(sb):
                     continue
                 # drop-flag switches are not data
                 srcs = dd["close"](("n", t["discr"]["place"]["l"], None))
